@@ -790,6 +790,9 @@ func collLen(n int) int {
 
 // CheckPar compares the observations of one parallel scenario.
 func CheckPar(p *ps.Program, sc *ps.Scenario, o *Obs) []Mismatch {
+	if strings.HasPrefix(sc.Cancel, "sl:") {
+		return nil // element-cancel scenarios are decided by the Lean model only (Gen/Check.lean)
+	}
 	m := &mm{}
 	if o.Crash != "" {
 		m.add("crash", "%s", o.Crash)
